@@ -1,5 +1,176 @@
-/- Lock-step oracle driver for Throttling (stub: replaced when the model is built). -/
+/-
+`oracle throttle`: lock-step oracle for `pipe.Throttling`.  Per script line
+`<idx> <cfg> | <moves> || <observations>` run the network model of Golem/Go/Throttle.lean (the very
+successor functions the theorems of Props/C13 are about) and check that it admits the
+implementation's observation sequence.  Keeps the SET of model states compatible with the
+observations so far; after every environment move the set is closed under process moves until
+quiescence (all interleavings, all `select` choices).
+
+`t<d>`: time passes d ms.  Every timer due within the window (inclusive) fires in order: `tick` to its
+due time, process moves to quiescence, repeat; finally `tick` to the end of the window.
+-/
+import Std.Data.HashSet
+import Golem.Go.Throttle
 import Golem.Driver.Util
 namespace Golem.Driver.Throttle
-def main : IO Unit := IO.eprintln "oracle: no driver for Throttle yet"
+open Golem.Go Golem.Go.Throttle Golem.Driver
+
+abbrev N := Net Int
+
+def showWhy : Why → String | .eof => "e" | .stop => "s" | .done => "d"
+
+def showPC : PC → String
+  | .push i => s!"P{i}" | .wait due => s!"W{due}" | .closing => "X" | .exited => "Z"
+
+def showDC : DC Int → String
+  | .idle => "I" | .gate a => s!"G{a}" | .fwd a => s!"F{a}" | .closing w => "X" ++ showWhy w | .exited w => "Z" ++ showWhy w
+
+/-- dynamic part of the state (history variables do not influence the future) -/
+def key (p : N) : String :=
+  s!"{showPC p.pc}|{showDC p.dc}|{showInts p.inp.buf}{if p.inp.closed then "!" else ""}|{showInts p.out.buf}{if p.out.closed then "!" else ""}|{p.ctl.buf.length}{if p.ctl.closed then "!" else ""}|{p.cancelled}|{p.panicked}|{p.now}"
+
+def lens (p : N) : String := s!"[{p.inp.buf.length};{p.out.buf.length}]"
+
+/-- quiescent states reachable by process moves from `init` (every interleaving) -/
+partial def closure (init : List N) : List N := Id.run do
+  let mut seen : Std.HashSet String := {}
+  let mut work := init
+  let mut quiet : List N := []
+  let mut fuel := 2000000
+  while !work.isEmpty && fuel > 0 do
+    fuel := fuel - 1
+    match work with
+    | [] => pure ()
+    | p :: rest =>
+      work := rest
+      let k := key p
+      if seen.contains k then continue
+      seen := seen.insert k
+      if p.panicked then
+        quiet := p :: quiet
+        continue
+      let nx := procNext p
+      if nx.isEmpty then quiet := p :: quiet
+      else work := nx ++ work
+  return quiet
+
+def tickTo (p : N) (t : Nat) : N :=
+  match (envNext p (.tick (t - p.now))).head? with
+  | some (q, _) => q
+  | none => p
+
+/-- let time pass until `target` from quiescent states: punctual timers, fired in order -/
+partial def advance (target : Nat) (ps : List N) : List N :=
+  ps.flatMap fun p =>
+    match p.pc with
+    | .wait due =>
+      if due ≤ target && !p.panicked then
+        advance target (closure [tickTo p (max due p.now)])
+      else [tickTo p target]
+    | _ => [tickTo p target]
+
+def dedup (ps : List N) : List N := Id.run do
+  let mut seen : Std.HashSet String := {}
+  let mut out : List N := []
+  for p in ps do
+    let k := key p
+    if seen.contains k then continue
+    seen := seen.insert k
+    out := p :: out
+  return out
+
+def showObs : Pool.Obs Int → String
+  | .ok => "ok" | .full => "full" | .value v => s!"v{v}" | .empty => "empty" | .closed => "closed" | .nope => "nope"
+
+def alive (p : N) : Nat :=
+  (match p.pc with | .exited => 0 | _ => 1) + (match p.dc with | .exited _ => 0 | _ => 1)
+
+/-- successors of one quiescent state under one script move, each with the token the environment
+would see, already closed under process moves -/
+def applyMove (p : N) (mv : String) : List (N × String) :=
+  let body := (mv.drop 1).toString
+  let env (m : Move Int) : List (N × String) :=
+    (envNext p m).flatMap fun (q, o) => (closure [q]).map fun r => (r, showObs o)
+  match mv.get 0 with
+  | 's' => match body.toInt? with
+    | some v => env (.send v)
+    | none => [(p, "bad")]
+  | 'c' => env .close
+  | 'r' => if body == "0" then env .recv else [(p, "nope")]
+  | 'x' => env .cancel
+  | 't' => match body.toNat? with
+    | some d => (advance (p.now + d) [p]).map fun r => (r, "ok")
+    | none => [(p, "bad")]
+  | 'z' => [(p, toString (alive p))]
+  | _ => [(p, "bad")]
+
+structure Conf where
+  cap : Nat := 0
+  ops : Nat := 1
+  ival : Nat := 1000
+
+def parseConf (ws : List String) : Conf := Id.run do
+  let mut c : Conf := {}
+  for w in ws do
+    match w.splitOn "=" with
+    | [k, v] =>
+      match k with
+      | "cap" => c := { c with cap := v.toNat?.getD 0 }
+      | "ops" => c := { c with ops := v.toNat?.getD 1 }
+      | "ival" => c := { c with ival := v.toNat?.getD 1000 }
+      | _ => pure ()
+    | _ => pure ()
+  return c
+
+/-- run a script against observed tokens `mv:res[lens]`; returns "ok" or a mismatch report -/
+def check (p0 : N) (moves obs : List String) : String := Id.run do
+  let mut states := closure [p0]
+  match obs with
+  | [] => return "MISMATCH no observations"
+  | o0 :: orest =>
+    let want0 := (o0.drop 2).toString
+    let all0 := states
+    states := states.filter fun p => !p.panicked && lens p == want0
+    if states.isEmpty then return s!"MISMATCH at init: impl={o0} model={all0.map lens}"
+    let mut os := orest
+    let mut idx := 0
+    for mv in moves do
+      match os with
+      | [] => return s!"MISMATCH at {idx} {mv}: implementation produced no observation (crashed?)"
+      | o :: r =>
+        os := r
+        let cands := states.flatMap fun p => applyMove p mv
+        let body := (o.drop (mv.length + 1)).toString
+        let res := (body.splitOn "[").headD ""
+        let ln := "[" ++ ((body.splitOn "[").getD 1 "")
+        let hit := cands.filter fun (_, t) => t == res
+        if hit.isEmpty then
+          return s!"MISMATCH at {idx} {mv}: impl={res} model allows {(cands.map (·.2)).eraseDups}"
+        let ok := hit.filter fun (q, _) => !q.panicked && lens q == ln
+        if ok.isEmpty then
+          let pn := if hit.any (·.1.panicked) then " (model can panic here)" else ""
+          return s!"MISMATCH at {idx} {mv}: impl lens={ln} model allows {(hit.map fun (q, _) => lens q).eraseDups}{pn}"
+        states := dedup (ok.map (·.1))
+        idx := idx + 1
+    return "ok"
+
+def run (line : String) : String :=
+  match line.splitOn " || " with
+  | [script, obsS] =>
+    let obs := words obsS
+    match script.splitOn " | " with
+    | cfgS :: rest =>
+      let moves := words (rest.headD "")
+      let c := parseConf (words cfgS)
+      check (Throttle.init c.ops c.ival c.cap) moves obs
+    | _ => "bad-op"
+  | _ => "bad-op"
+
+/-- line: `<idx> <script> || <obs>` → `<idx> ok` / `<idx> MISMATCH …` -/
+def step (line : String) : String :=
+  match line.splitOn " " with
+  | idx :: rest => idx ++ " " ++ run (" ".intercalate rest)
+  | _ => "bad-op"
+
+def main : IO Unit := eachLine step
 end Golem.Driver.Throttle
